@@ -37,12 +37,20 @@ MpFams == {"ipv6-unicast", "ipv4-labelled-unicast", "l3vpn-ipv4-unicast", "l3vpn
 MpPool == UNION {{MpA(t, f, nl) : t \in MpKinds, nl \in NlPool(f)} : f \in MpFams}
           \cup UNION {{MpN(f, <<NL(0, IF FamClass(f) = "ip" THEN 0 ELSE 1)>>, nh) : nh \in NhKindsOf(f) \ {0}} : f \in MpFams}
 
+(* attributes written in the extended form although their value is short *)
+ExtPool == {Simple("med"), Simple("atomic"), Counted("communities", 2), Counted("unknown", 0), Counted("unknown", 255),
+            PathA("aspath", <<1, 2>>), MpA("mpunreach", "ipv4-multicast", <<NL(24, 0)>>),
+            MpN("ipv6-unicast", <<NL(64, 0), NL(0, 0)>>, 0), MpN("l3vpn-ipv4-unicast", <<NL(24, 1)>>, 1)}
+
 BodyNl == {<<>>, <<NL(0, 0)>>, <<NL(8, 0), NL(25, 0), NL(32, 0)>>}
 
 Shapes ==
   CASE Pool = "attr"  -> {Update(<<>>, BaseAttrs \o <<a>>, <<NL(24, 0)>>) : a \in AttrPool}
                          \cup {Update(<<>>, <<a, c>>, <<>>) : a \in AttrPool,
                                  c \in {Simple("med"), Counted("unknown", 256), PathA("aspath", <<1>>)}}
+    [] Pool = "ext"   -> {Update(<<>>, <<ExtForm(a)>> \o BaseAttrs, <<NL(24, 0)>>) : a \in ExtPool}
+                         \cup {Update(<<>>, <<Simple("origin"), ExtForm(a), PathA("aspath", <<2>>)>>, <<>>) : a \in ExtPool}
+                         \cup {Update(<<>>, BaseAttrs \o <<ExtForm(a)>>, <<NL(8, 0)>>) : a \in ExtPool}
     [] Pool = "nlri"  -> {Update(w, BaseAttrs, n) : w \in BodyNl, n \in BodyNl}
                          \cup {Update(<<>>, BaseAttrs \o <<a>>, <<>>) : a \in MpPool}
     [] Pool = "other" -> {Open(ps) : ps \in {<<>>, <<<<Cap("mp", 0)>>>>,
@@ -105,6 +113,12 @@ D_NextHop == (mut = NoMut /\ s.k = "update") =>
   LET r == ReadMsg(Bytes, o) IN
   \A i \in 1..Len(s.attrs) :
      s.attrs[i].t = "mpreach" => r.body.inner[i].nhl \in ExpNhLens(s.attrs[i].fam, s.attrs[i].n)
+
+(* the reader sees the Extended Length bit exactly where the value needs it or the shape asks for it *)
+D_ExtFlag == (mut = NoMut /\ s.k = "update") =>
+  LET r == ReadMsg(Bytes, o) IN
+  \A i \in 1..Len(s.attrs) :
+     AttrExt(Bytes, r.body.attrs.els[i]) <=> (AttrVLen(Bytes, r.body.attrs.els[i]) > 255 \/ s.attrs[i].x = 1)
 
 (* the oracle never calls an untouched message overrun *)
 D_NoSpuriousOverrun == mut = NoMut => ~Overrun(Bytes, o)
